@@ -31,6 +31,7 @@ class Chooser:
         "zero": lambda n, i: 0,            # first alternative / minimal repetition / "nothing special"
         "last": lambda n, i: n - 1,        # last alternative / maximal repetition
         "rot": lambda n, i: i % n,         # rotating: a varied but fixed base execution
+        "trickle": lambda n, i: max(n - 2, 0),  # schedules: exactly one pending unit arrives before every step
     }
 
     def __init__(self, prefix: Iterable[int] = (), labels: Optional[list[str]] = None, max_points: int = 100000,
